@@ -53,6 +53,14 @@ func resultTypes(sig *types.Signature) []types.Type {
 	return ts
 }
 
+// calleeNames: the names under which a callee can be targeted by at/after clauses (generic instances by their origin).
+func calleeNames(fn *ssa.Function) []string {
+	if o := fn.Origin(); o != nil {
+		fn = o
+	}
+	return []string{fn.Name(), funcKey(fn)}
+}
+
 func calleeName(fn *ssa.Function) string {
 	if o := fn.Origin(); o != nil {
 		fn = o
@@ -73,7 +81,7 @@ func (x *Exec) execCall(fr *Frame, n *Node, st *State, instr ssa.Instruction, co
 	}
 	x.dispatchCall(c)
 	if callee := common.StaticCallee(); callee != nil {
-		x.afterCall(c, []string{callee.Name(), funcKey(callee)})
+		x.afterCall(c, calleeNames(callee))
 	} else if common.IsInvoke() {
 		x.afterCall(c, []string{common.Method.Name(), typeKeyShort(common.Value.Type()) + "." + common.Method.Name()})
 	}
